@@ -250,14 +250,14 @@ theorem freeSlot_forest_real {s : Seg} (hF : Forest s) {a : Nat} (ha : Real s a)
   | none =>
     have e : s0.unchild a = s0 := by unfold Seg.unchild; rw [hp]
     rw [e]
-    obtain ⟨hF2, hc2, hp2, _, hcop2⟩ := detachChildren_forest hF0 ha0
+    obtain ⟨hF2, hc2, hp2, _, hcop2, _⟩ := detachChildren_forest hF0 ha0
     have hsz := (detachChildren_same (s0.slots.size + 1) s0 a).size
     refine forest_of_recycled hF2 (by unfold Real; rw [hcop2]; exact ha0) (by rw [hp2]; exact hp) hc2
       (recycle_spec _ a (by rw [hsz, hs0]; exact has))
   | some p =>
     rw [unchild_eq s0 a p hp]
     -- the same computation with the parent pointer cleared first
-    obtain ⟨hFu, hpu, hru, hfu, hcu, _⟩ := unparent_forest hF0 ha0
+    obtain ⟨hFu, hpu, hru, hfu, hcu, _, _⟩ := unparent_forest hF0 ha0
     rw [unparent_eq s0 a p hp] at hFu hpu hru hfu hcu
     generalize hs1 : (removeChild s0 p a).2 = s1 at *
     have hsz1 : s1.slots.size = s0.slots.size := by rw [← hs1]; exact (removeChild_same s0 p a).size
